@@ -14,8 +14,13 @@ Definition pmvalue : P mvalue :=
   else if t =? 3 then (z <- pz ;; ret (MFloat z))
   else ret MBad.
 Definition popt {A} (p : P A) : P (option A) := b <- pbool ;; if b then (x <- p ;; ret (Some x)) else ret None.
+(** toInt64 of a filter operand: int and int64 as they are, float64 through [float_fix] (the same
+    int64(v*100) that Add applies to stored values), anything else is not numeric *)
+Definition num_of (v : mvalue) : option Z :=
+  match v with MInt z => Some z | MFloat b => Some (float_fix b) | _ => None end.
+Definition pnum : P (option Z) := v <- pmvalue ;; ret (num_of v).
 Definition pfilter : P mfilter :=
-  fld <- pstr ;; op <- pz ;; n1 <- popt pz ;; n2 <- popt pz ;; s <- pstr ;; l <- popt (plist pstr) ;;
+  fld <- pstr ;; op <- pz ;; n1 <- pnum ;; n2 <- pnum ;; s <- pstr ;; l <- popt (plist pstr) ;;
   ret {| f_field := fld; f_op := mop_of_Z op; f_num := n1; f_num2 := n2; f_str := s; f_list := l |}.
 Definition pgroup : P mgroup := a <- pbool ;; fs <- plist pfilter ;; ret {| g_and := a; g_filters := fs |}.
 
@@ -40,8 +45,6 @@ Definition doc := (Z * list (str * mvalue))%type.
 Definition field_value (d : doc) (f : str) : option mvalue :=
   match find (fun kv => str_eqb (fst kv) f) (snd d) with Some kv => Some (snd kv) | None => None end.
 
-Definition num_of (v : mvalue) : option Z :=
-  match v with MInt z => Some z | MFloat b => Some (float_fix b) | _ => None end.
 Definition render_of (v : mvalue) : option str :=
   match v with MStr s => Some s | MBool b => Some (if b then s_true else s_false) | _ => None end.
 
